@@ -397,9 +397,9 @@ def rule_insert_values(program, ctx, prop, rid):
         ctx.bad(finding_at(prop, rid, vals, f"INSERT covers {sorted(got)}; the events table has {sorted(EVENT_COLS)}", text="columns"))
 
 
-def rule_kvcodec(program, ctx):
-    rid = ctx.rule(
-        "C04.kvcodec",
+def rule_kvcodec(program, ctx, prop=P, rid="C04.kvcodec"):
+    ctx.rule(
+        rid,
         "LMDB codec tables: position of each field in encode_event's row tuple == FIELDS_TO_COLUMNS[field] == index read by decode_event and "
         "by matcher's Event(...); bytes.fromhex/.id_bytes on write iff .hex() on read",
         floor=5,
@@ -413,7 +413,7 @@ def rule_kvcodec(program, ctx):
     if set(table) != set(EVENT_COLS):
         raise AnalysisError("FIELDS_TO_COLUMNS does not list the seven event fields")
     if len(set(table.values())) != len(table):
-        ctx.bad(finding_at(P, rid, kv.tree.body[0], "FIELDS_TO_COLUMNS maps two fields to one column"))
+        ctx.bad(finding_at(prop, rid, kv.tree.body[0], "FIELDS_TO_COLUMNS maps two fields to one column"))
     enc = program.func("nostr_relay.storage.kv:encode_event")
     row = next((s.value for s in walk_no_nested(enc) if isinstance(s, ast.Assign) and isinstance(s.value, ast.Tuple)), None)
     if row is None:
@@ -425,7 +425,7 @@ def rule_kvcodec(program, ctx):
         if i == 0:
             continue
         if not m:
-            ctx.bad(finding_at(P, rid, e, f"row[{i}] = `{src}` is not an event field through a reversible codec", text=str(i)))
+            ctx.bad(finding_at(prop, rid, e, f"row[{i}] = `{src}` is not an event field through a reversible codec", text=str(i)))
             continue
         field = m.group(1)
         if "fromhex" in src or m.group(2):
@@ -433,12 +433,12 @@ def rule_kvcodec(program, ctx):
         if table.get(field) == i:
             ctx.ok(rid, e, f"encode: row[{i}] = {src} == FIELDS_TO_COLUMNS['{field}']")
         else:
-            ctx.bad(finding_at(P, rid, e, f"encode_event puts `{field}` at row[{i}] but FIELDS_TO_COLUMNS['{field}'] = {table.get(field)}: readers and the residual predicate look at another column", text=field))
+            ctx.bad(finding_at(prop, rid, e, f"encode_event puts `{field}` at row[{i}] but FIELDS_TO_COLUMNS['{field}'] = {table.get(field)}: readers and the residual predicate look at another column", text=field))
     for q in ("nostr_relay.storage.kv:decode_event", "nostr_relay.storage.kv:matcher"):
         fn = program.func(q)
         call = next((c for c in ast.walk(fn) if isinstance(c, ast.Call) and call_name(c) == "Event"), None)
         if call is None:
-            ctx.bad(finding_func(P, rid, fn, "no Event(...) construction", text=f"def {fn.name}(...)"))
+            ctx.bad(finding_func(prop, rid, fn, "no Event(...) construction", text=f"def {fn.name}(...)"))
             continue
         seen = set()
         for k in call.keywords:
@@ -448,25 +448,25 @@ def rule_kvcodec(program, ctx):
                 hx = True
                 v = v.func.value
             if not (isinstance(v, ast.Subscript) and isinstance(v.slice, ast.Constant)):
-                ctx.bad(finding_at(P, rid, k.value, f"{fn.name}: `{k.arg}` is not read from a fixed row position", text=k.arg))
+                ctx.bad(finding_at(prop, rid, k.value, f"{fn.name}: `{k.arg}` is not read from a fixed row position", text=k.arg))
                 continue
             seen.add(k.arg)
             i = v.slice.value
             if table.get(k.arg) != i:
-                ctx.bad(finding_at(P, rid, k.value, f"{fn.name} reads `{k.arg}` from row[{i}]; it is written at row[{table.get(k.arg)}]", text=k.arg))
+                ctx.bad(finding_at(prop, rid, k.value, f"{fn.name} reads `{k.arg}` from row[{i}]; it is written at row[{table.get(k.arg)}]", text=k.arg))
             elif hx != (k.arg in binary):
-                ctx.bad(finding_at(P, rid, k.value, f"{fn.name}: `{k.arg}` is {'hex-decoded' if hx else 'not hex-decoded'} on read but {'bytes' if k.arg in binary else 'text'} on write", text=k.arg))
+                ctx.bad(finding_at(prop, rid, k.value, f"{fn.name}: `{k.arg}` is {'hex-decoded' if hx else 'not hex-decoded'} on read but {'bytes' if k.arg in binary else 'text'} on write", text=k.arg))
             else:
                 ctx.ok(rid, k.value, f"{fn.name}: {k.arg} <- row[{i}]{'.hex()' if hx else ''}")
         if seen != set(EVENT_COLS):
-            ctx.bad(finding_at(P, rid, call, f"{fn.name} fills {sorted(seen)} of the seven event fields", text="fields"))
+            ctx.bad(finding_at(prop, rid, call, f"{fn.name} fills {sorted(seen)} of the seven event fields", text="fields"))
     # msgpack options must round-trip bytes/str distinctly
     for c in ast.walk(enc):
         if isinstance(c, ast.Call) and call_name(c) == "packb":
             if any(k.arg == "use_bin_type" and isinstance(k.value, ast.Constant) and k.value.value is True for k in c.keywords):
                 ctx.ok(rid, c, "packb(use_bin_type=True): bytes and str stay distinct")
             else:
-                ctx.bad(finding_at(P, rid, c, "packb without use_bin_type=True: str and bytes are merged on disk"))
+                ctx.bad(finding_at(prop, rid, c, "packb without use_bin_type=True: str and bytes are merged on disk"))
 
 
 def rule_http(program, ctx):
@@ -625,6 +625,7 @@ def rule_immutable(program, ctx, prop=P, rid="C04.immutable"):
 
 
 def run(program, ctx):
+    from . import c03 as _c03
     from ..lib import rule_awaited
 
     rule_awaited(program, ctx, P, ANCHORS)
@@ -636,6 +637,8 @@ def run(program, ctx):
     rule_kvcodec(program, ctx)
     rule_http(program, ctx)
     rule_encoder(program, ctx)
+    # a validator that crashes must stop the event: what is served afterwards is only 'as accepted' if acceptance went through every validator
+    _c03.rule_chain(program, ctx, prop=P, rid="C04.chain")
     rule_immutable(program, ctx)
     ctx.not_decided += [
         "round-trip equality through SQLite/PostgreSQL JSON and TEXT columns and through msgpack for all Unicode/number values",
